@@ -325,6 +325,9 @@ class Normalizer:
                 return None
             return self.alts(res[0], res[1])
         # ---- Option / Result / iterator plumbing (std only)
+        if cid is None and nm in ("index", "index_mut") and len(args) == 2 and \
+                all(isinstance(x, tuple) and x[0] == "aggf" and "RangeFull" in x[1] for x in args[1]) and args[1]:
+            return self.alts(args[0], stack)            # `&v[..]`: the whole sequence
         if cid is None:
             if nm in ("unwrap_or_else", "unwrap_or_default") and len(args) >= 1:
                 d = applied(1, []) if len(args) > 1 else {"default()"}
@@ -523,3 +526,29 @@ def effects(N, body):
             continue
         keep.append("%s [%s]" % (term, fl))
     return sorted(set(keep))
+
+
+# ------------------------------------------------------------------ equality up to renaming of private identifiers
+
+_IDENT = re.compile(r"[A-Za-z_][A-Za-z_0-9]*")
+
+
+def equal_up_to_renaming(got, want, max_names=3):
+    """Two signatures (lists of strings) that differ only by a one-to-one renaming of at most `max_names` identifiers that occur on one
+    side only - a private field or local type renamed consistently (`last_cursor` -> `reader_pos`, `regex` -> `matcher`).  A wrong operand
+    uses a name that exists on both sides and is not affected."""
+    import itertools
+    g, w = sorted(got), sorted(want)
+    if g == w:
+        return True
+    ig = set(_IDENT.findall(" ".join(g)))
+    iw = set(_IDENT.findall(" ".join(w)))
+    og, ow = sorted(ig - iw), sorted(iw - ig)
+    if not og or len(og) != len(ow) or len(og) > max_names:
+        return False
+    for perm in itertools.permutations(ow):
+        ren = dict(zip(og, perm))
+        g2 = sorted(_IDENT.sub(lambda m: ren.get(m.group(0), m.group(0)), x) for x in g)
+        if g2 == w:
+            return True
+    return False
